@@ -105,6 +105,19 @@ def programs(tier):
         ]
     )
     yield ("loop-two-gates", loop4, {"draft": 0}, dict(dag=False, exact=False, horizon=H_ - 1))
+    # a gate that is itself gated, inside a cycle: once the outer gate stops selecting it, the inner gate is stale
+    # but never re-runs - its targets must stay closed (it HAS decided in this run)
+    for oi in (True, False):
+        loop5 = T.prog(
+            [
+                T.fn("bump", ["count"], ["count"], behav="env"),
+                T.ifelse("outer", ["count"], "inner", "fin", default_open=oi),
+                T.route("inner", ["count"], ["bump", "audit"], default_open=True),
+                T.fn("audit", ["count"], ["rep"], behav="env"),
+                T.fn("fin", ["count"], ["done"], behav="env"),
+            ]
+        )
+        yield (f"loop-gated-gate-{oi}", loop5, {"count": 0}, dict(dag=False, exact=False, horizon=H_))
     # nested: gate inside a nested graph; gate routing to a graph node
     inner, _ = g1_program("route2END", False, "e0", "e0")
     inner["name"] = "inner"
